@@ -597,7 +597,7 @@ theorem audit_iff {old new : Prog} (ho : WF old) (hn : WF new) :
   have rn := wf_resolves hn
   obtain ⟨_, _, _, _, ofs, _, osv, _, _, _, _, _, _⟩ := ho
   obtain ⟨_, nen, nev, nst, nfs, nsv, nsv', nsc, nops, _, _, _, _⟩ := hn
-  unfold audit Breaking
+  unfold audit auditWith Breaking
   simp only [List.any_append, Bool.or_eq_true, checkNamespaces_ok, checkConstants_ok,
     Bool.false_eq_true, or_false]
   rw [checkScopes_iff nsc nops ro rn, checkEnums_iff nen nev,
